@@ -380,7 +380,13 @@ class Exec:
             s = n.n('sub')
             if s is not None and s.k == 'this': return ('f', fr.this)
             v = fr.vals.get(s.id) if s is not None else None
-            if isinstance(v, Ref): return v.loc
+            if isinstance(v, Ref):
+                if s.k in ('ref', 'member') and (s.type or s.d.get('decltype') or '').rstrip().endswith(('*', '*const', '* const')):
+                    # `*p` with p a pointer variable: the location is what p holds, not p itself
+                    c = st.store.get(v.loc)
+                    if isinstance(c, Ref): return c.loc
+                    if c is not None: return None
+                return v.loc
             return None
         if k == 'call':
             v = fr.vals.get(n.id)
@@ -555,6 +561,10 @@ class Exec:
                 return v if (v is not None and not isinstance(v, (Unknown, Lin, bool))) else Unknown('addr')
             if op == '*':
                 v = self._value(s, st, fr)
+                if isinstance(v, Ref) and s.k in ('ref', 'member') and (s.type or s.d.get('decltype') or '').rstrip().endswith(('*', '*const', '* const')):
+                    c = st.store.get(v.loc)
+                    if isinstance(c, Ref): return c
+                    if c is not None and not isinstance(c, (Unknown, Sym)): v = c       # the address held by the pointer variable
                 if isinstance(v, Ref): return v
                 if hasattr(self.dom, 'deref'):
                     r = self.dom.deref(self, n, v, st, fr)
